@@ -173,7 +173,7 @@ def _p12f(ctx):
         e = g.strip(g.switch_expr(sid))
         # result of try_freeing (inlined): phi of constants / after threading the true origins reach the clear directly
     ok = bool(tf) and bool(clears) and all(x.dom(set(tf), c.nid) for c in clears)
-    dels = x.inlined(r'memory::ToFree::delete$')
+    dels = sorted({n_ for (n_, _i) in g.inlined_insts(r'memory::ToFree::delete$')})
     ok2 = bool(dels) and all(x.dom(set(dels) | {n for n in x.ext_calls(r'Vec(::<.*>)?::drain$')}, c.nid) for c in clears)
     ctx.add('P12f', 'T-DOM', fr, ok and ok2, 'the epoch signal is cleared only after a reclamation cycle completed (objects deleted)' if ok and ok2 else
             'MemoryManager::free clears the epoch signal without a completed cycle', sub='cycle-end')
@@ -283,7 +283,7 @@ def _p12i(ctx):
     fn = ctx.fn1(r'^memory::MemoryManagerInner::try_freeing$')
     g = ctx.graph(fn)
     x = g.x
-    dels = x.inlined(r'memory::ToFree::delete$')
+    dels = sorted({n_ for (n_, _i) in g.inlined_insts(r'memory::ToFree::delete$')})
     drains = x.ext_calls(r'Vec(::<.*>)?::drain$')
     st = [(n, v) for (n, v) in _memstores(g, 'epoch')]
     at = ('param', g.root_inst, 2)
@@ -292,12 +292,17 @@ def _p12i(ctx):
     ctx.add('P12i', 'T-MUST', fn, ok, 'a completed reclamation cycle records the epoch it completed' if ok else
             'try_freeing does not record the completed epoch after deleting the batch: the next cycle can never start and retired memory grows without bound', sub='completed-epoch')
     # the boolean result: true only after the batch was drained
-    # (origins of the returned constant, through helper functions if the result is computed there)
-    g._fwd_calls = set()
-    origins, _all = g._const_origins(g.root_inst, 0, set())
-    trues = sorted({x.rep(n_) for (n_, v_) in origins if str(v_) == '1' and any(m_ in g.live() for m_ in g.members(n_))})
-    ok2 = bool(trues) and all(x.dom(set(drains), t) for t in trues)
-    ctx.add('P12i', 'T-DOM', fn, ok2, 'try_freeing reports success only after deleting the batch', sub='result')
+    # (`_0 = true` written in try_freeing itself; when the result is no boolean constant written here - an enum, a
+    # helper's result - the same obligation is decided in the caller: P12f "signal cleared only after the deletes")
+    trues = []
+    for n in g.nodes:
+        if n.id in g.live() and n.kind == 'block' and n.inst == g.root_inst:
+            for s_ in n.stmts:
+                if s_['k'] == 'assign' and s_['pl']['l'] == 0 and not s_['pl']['p'] and s_['rv']['k'] == 'use' and s_['rv']['op']['k'] == 'const' and str(s_['rv']['op'].get('v')) == '1':
+                    trues.append(x.rep(n.id))
+    ok2 = all(x.dom(set(drains), t) for t in trues)
+    ctx.add('P12i', 'T-DOM', fn, ok2, 'try_freeing reports success only after deleting the batch' if trues else
+            'try_freeing\'s result is not a boolean constant written in the function: decided in the caller (P12f cycle-end)', sub='result')
 
 
 def _p1h(ctx):
@@ -662,11 +667,13 @@ def _p15m(ctx):
                 ok = ok and _fld_of(g, args[1], 'loaded_vals') and _binop(g, args[1], {'BitAnd', 'Add', 'Sub'}) is None
             rule(fn, ok, 'new count = (observed count + by) & count mask' + (' ; CAS expects the observed count' if a.op in CAS_OPS else ''),
                  '%s does not store (observed count + by) & count mask' % short_fn(fn), short_fn(fn).split('::')[-1])
-    # the refreshed tail = head observation - scan result
-    for nm in (r'^multiqueue::MultiQueue::<.*>::reload_tail_single$', r'^multiqueue::MultiQueue::<.*>::reload_tail_multi$'):
-        fn = ctx.fn1(nm)
-        g = ctx.graph(fn, 'BCast')
+    # the refreshed tail = head observation - scan result (read off the send entry point, wherever the code lives)
+    from rules_send import send_entry, _head
+    fn = send_entry(ctx)
+    for fl in FLAVOURS:
+        g = ctx.graph(fn, fl)
         x = g.x
+        H = {a.nid for a in _head(x) if a.op == 'load' or a.op in CAS_OPS}
         ws = [a for a in x.atoms_on('MultiQueue.tail_cache') if a.op in WRITE_OPS]
         ok = bool(ws)
         for a in ws:
@@ -674,6 +681,9 @@ def _p15m(ctx):
             newv = args[2] if a.op in CAS_OPS else args[1]
             b = _binop(g, newv, {'Sub'})
             scan = {s_.nid for s_ in x.loads_in(newv) if s_.on('ReaderPos.pos_data')}
-            ok = ok and b is not None and _is(g, b[0], 'param', g.insts[g.root_inst].body['arg_count']) and bool(scan) and \
-                bool({s_.nid for s_ in x.loads_in(b[1])} & scan) and not x.loads_in(b[0])
-        rule(fn, ok, 'refreshed tail = observed head count - largest stream distance', '%s does not store (observed head - scan result) into the tail cache' % short_fn(fn), short_fn(fn).split('::')[-1])
+            okw = b is not None and bool(scan) and bool({s_.nid for s_ in x.loads_in(b[1])} & scan)
+            if okw:
+                l0 = {s_.nid for s_ in x.loads_in(b[0])}
+                okw = bool(l0) and l0 <= H and not [s_ for s_ in g.walk(b[0]) if s_[0] in ('bin', 'un')]
+            ok = ok and okw
+        rule(fn, ok, 'refreshed tail = observed head count - largest stream distance', 'the send path does not store (observed head - scan result) into the tail cache', 'reload_tail.' + fl)
